@@ -330,6 +330,24 @@ def run(repo, res, tier):
         base = (tname or "").split(":")[-1]
         fk = fmt_kind(vexpr)
         qn = node.fn
+        if fk == "raw" and isinstance(vexpr, ast.Name):
+            # the text is held in a local: the kind of its definitions (all must agree); a parameter comes from the
+            # caller and is not followed here
+            fdef = mod.enclosing_function(vexpr)
+            kinds_ = set()
+            if fdef is not None and vexpr.id not in {a.arg for a in fdef.args.args + fdef.args.kwonlyargs}:
+                from ..dataflow import ReachingDefs as _RD
+
+                rd_ = _RD(fdef)
+                at_ = rd_.stmt_of(vexpr)
+                ds = rd_.defs(vexpr.id, at_) if at_ is not None else []
+                if ds and all(d.kind == "assign" and d.node is not None for d in ds):
+                    kinds_ = {fmt_kind(d.node) for d in ds}
+            if len(kinds_) == 1:
+                fk = kinds_.pop()
+            elif kind in ("decimal", "float", "int") or (base == "boolean"):
+                res.refuse("%s: the text written for %s %s comes from %s, whose formatting is not visible here" % (qn, path, what, norm(vexpr)))
+                return
         if kind in ("decimal", "float"):
             ok = fk == "positional" or (fk in ("str",) and cx.source_is_int(node, vexpr))
             res.check("X-NUM", "%s %s (%s) <- %s" % (path, what, tname, norm(vexpr)[:70]), ok, mod, origin, "%s %s written with %s" % (path, what, norm(vexpr)[:90]), "a %s value is written with str()/repr()-style formatting: small or large magnitudes print in exponent notation (e.g. 2e-05), which the schema type %s rejects" % (kind, tname), qualname=qn)
